@@ -16,6 +16,7 @@ from sqllineage.core.parser.sqlfluff.utils import (
     list_child_segments,
     list_join_clause,
     list_subqueries,
+    unwrap_join_group,
 )
 from sqllineage.utils.constant import NodeTag
 from sqllineage.utils.entities import AnalyzerContext, SubQueryTuple
@@ -130,10 +131,14 @@ class BaseExtractor:
         holder extra subqueries sets
         """
         tables: list[Union[Table, SubQuery, Path]] = []
+        # in a JOIN (b AS x JOIN c ON ...) ON ..., table and alias of b sit inside the parenthesis
+        element = unwrap_join_group(segment)
         all_segments = [
-            seg for seg in list_child_segments(segment) if seg.type != "keyword"
+            seg
+            for seg in list_child_segments(element, False)
+            if seg.type != "keyword"
         ]
-        if table_expression := segment.get_child("table_expression"):
+        if table_expression := element.get_child("table_expression"):
             if table_expression.get_child("function"):
                 # for UNNEST or generator function, no dataset involved
                 return tables
